@@ -183,6 +183,8 @@ def gen(s: Choices, cls, cfg):
             sc["fault"]["kind"] = "task_fail_before"
     else:
         sc["fault"] = None
+    # pre-emptive pool model: fault-free runs only
+    sc["preempt"] = sc["fault"] is None and kind in ("1d", "2d") and s.chance(1, 4)
     return sc
 
 
@@ -333,7 +335,7 @@ def execute(sc, sched: Choices, cls, cfg):
     features.update(n_threads="default" if sc["n_threads"] is None else ("1" if sc["n_threads"] == 1 else ">1"), cpu=sc["cpu"])
 
     seams.set_knobs(nanops_elems=sc["elems"])
-    ctx = executor.SimContext(sched=sched, workers=sc["workers"], cpu_count=sc["cpu"], fault=sc["fault"], monitor=kind != "real")
+    ctx = executor.SimContext(sched=sched, workers=sc["workers"], cpu_count=sc["cpu"], fault=sc["fault"], monitor=kind != "real", preempt=sc.get("preempt", False))
     before = np.array(arr, copy=True) if kind != "real" else None
     arg = arr
     if kind == "1d" and sc.get("container") == "list":
@@ -356,6 +358,8 @@ def execute(sc, sched: Choices, cls, cfg):
     fired = ctx.fault_fired
     if ctx.fault_where:
         rec["fault_sites"] = [ctx.fault_where]
+    rec["n_preemptions"] = ctx.stats.get("preemptions", 0)
+    rec["preempt_sites"] = sorted(ctx.preempt_sites)
     features["fault"] = fired or "none"
     if before is not None and not np.array_equal(before, arr, equal_nan=True):
         add("input_unchanged", "input_mutated", "input array unchanged", "changed")
